@@ -270,6 +270,20 @@ def _cfg_votes(tier):
     return out
 
 
+def _cfg_major(tier):
+    # the weighted 3x2 / 2x3 matrices do not finish within the per-configuration budget (path explosion over symbolic weight
+    # comparisons): weighted majority votes are covered up to 2x3 / 2x2x3 only; the largest shapes use two encodings
+    out = []
+    for c in _cfg_votes(tier):
+        big = (c["n"], c["A"], c["K"]) in ((3, 2, 2), (2, 3, 2), (2, 2, 3))
+        if big and c["enc"] not in ("float_nan", "str_nan"):
+            continue
+        if (c["n"], c["A"], c["K"]) in ((3, 2, 2), (2, 3, 2)) and c["weighted"]:
+            continue
+        out.append(c)
+    return out
+
+
 def _cfg_conf(tier):
     out = []
     encs = ["float_nan", "str_nan"] if tier == "quick" else list(ENC)
@@ -286,7 +300,7 @@ UNITS = ["skactiveml.utils._aggregation:compute_vote_vectors", "skactiveml.utils
 
 HARNESSES = [
     Harness("vote_vectors", sym_votes, replay_votes, _cfg_votes, UNITS[:1] + UNITS[3:5], required_witnesses=("all_missing",)),
-    Harness("majority_vote", sym_majority, replay_majority, _cfg_votes, UNITS[:2] + UNITS[3:]),
+    Harness("majority_vote", sym_majority, replay_majority, _cfg_major, UNITS[:2] + UNITS[3:]),
     Harness("ext_confusion_matrix", sym_conf, replay_conf, _cfg_conf, UNITS[2:5]),
 ]
 
